@@ -390,6 +390,69 @@ def run(run):
     except Unsupported as e:
         ob.inconclusive(str(e))
 
+    ob = run.ob("parenthesised-expression-is-the-expression", "E2", "parse_tuple: `(` expressions `)` with exactly one expression yields that "
+                "expression itself (index 0 of what was parsed, nothing wrapped around it); any other number yields a Tuple of all of them; the "
+                "brackets are required on both sides", ["parse_tuple"])
+    try:
+        fnt = e2.find1(mir, file="src/parse/collection.rs", name="parse_tuple")
+        ext = Exec(mir, max_paths=2000)
+        stt = State()
+        itt = Ref(ext.new_cell(stt, Opq(z3.Const("it", Val), "LexIterator")))
+        endst = e2.run_kernel(run, ext, fnt, [itt], stt)
+        clt, n_ok = [], 0
+        for p in endst:
+            if p.kind != "return":
+                raise Unsupported(f"unexpected path end {p}")
+            if not (isinstance(p.ret, Agg) and p.ret.variant == "Ok"):
+                continue
+            n_ok += 1
+            s_ = p.state
+            eats = [e_ for e_ in p.events if e_["name"].endswith("LexIterator::eat")]
+            pv = [e_ for e_ in p.events if e_["name"].endswith("LexIterator::parse_vec")]
+            toks = []
+            for e_ in eats:
+                tv = ext.read_ref(s_, e_["args"][1]) if isinstance(e_["args"][1], Ref) else e_["args"][1]
+                toks.append(tv.variant if isinstance(tv, Agg) else "?")
+            ok = toks == ["LRBrack", "RRBrack"] and len(pv) == 1
+            if not ok:
+                clt.append(z3.Implies(conj(p.cond), z3.BoolVal(False)))
+                continue
+            elems = ext.project(s_, ext.project(s_, pv[0]["ret"], ("v", "Ok")), ("f", 0), "Vec<AST>")
+            ln = ext.uf("seq:len", Val, z3.BitVecSort(64))(ext.to_val(s_, elems))
+            rv = z3.simplify(ext.to_val(s_, p.ret.fields[0]))
+            idx = [e_ for e_ in p.events if e_["name"].endswith("Index::index")]
+            news = [e_ for e_ in p.events if e_["name"].endswith("AST::new")]
+            if idx and not news:
+                i0 = idx[0]["args"][1]
+                first = z3.is_bv_value(i0) and i0.as_long() == 0 and z3.eq(idx[0]["argvals"][0], ext.to_val(s_, elems))
+                same = z3.eq(rv, z3.simplify(ext.to_val(s_, idx[0]["ret"])))
+                clt.append(z3.Implies(conj(p.cond), z3.And(ln == 1, z3.BoolVal(bool(first and same)))))
+            elif news and not idx:
+                nv = news[0]["args"][1]
+                nv = ext.read_ref(s_, nv) if isinstance(nv, Ref) else nv
+                tup = isinstance(nv, Agg) and nv.variant == "Tuple" and z3.eq(z3.simplify(ext.to_val(s_, nv.fields[0])), z3.simplify(ext.to_val(s_, elems)))
+                clt.append(z3.Implies(conj(p.cond), z3.And(ln != 1, z3.BoolVal(bool(tup)))))
+            else:
+                clt.append(z3.Implies(conj(p.cond), z3.BoolVal(False)))
+        if not n_ok:
+            raise Unsupported("no Ok path")
+
+        def replay_paren(model):
+            pairs = [("def r: Int := 1 + 2 * 3\nprint(r)", "def r: Int := 1 + (2 * 3)\nprint(r)"), ("def r: Int := 7\nprint(r)", "def r: Int := (7)\nprint(r)"),
+                     ("def a := 2\ndef r: Int := a * 3\nprint(r)", "def a := 2\ndef r: Int := ((a)) * 3\nprint(r)"),
+                     ("def f(x: Int) -> Int => x + 1\nprint(f(2))", "def f(x: Int) -> Int => (x + 1)\nprint(f((2)))")]
+            bad = []
+            for plain, par in pairs:
+                a, b = rp.transpile(plain), rp.transpile(par)
+                if a != b:
+                    bad.append(f"{par!r}: {b[0]} {b[1][:80]!r} instead of {a[0]} {a[1][:80]!r}")
+            if bad:
+                return {"reproduced": True, "role": "redundant-parentheses", "detail": "; ".join(bad[:2])}
+            return {"reproduced": False, "detail": f"{len(pairs)} programs with redundant parentheses transpile to the same bytes"}
+        e2.prove_each(run, ob, ext, [], clt, {}, replay_paren)
+    except Unsupported as e:
+        ob.inconclusive(str(e))
+
     ob = run.ob("crlf-equals-lf", "E2", "one lexer step on '\\r' followed by '\\n' leaves exactly the state and (empty) token "
                 "list that the step on '\\n' leaves, having consumed two characters; '\\r' followed by anything else is an error",
                 ["into_tokens ('\\r' and '\\n' arms)", "State::token(NL)"])
